@@ -13,6 +13,7 @@
 #ifdef U_SCHEDULER
 //@FUNC
 str_t handle_scheduler(struct cfgmap *cfgmap, struct vmap *vm, str_t default_)
+__CPROVER_requires(!vx_exc)
 __CPROVER_ensures(!vx_exc)
 __CPROVER_ensures(__CPROVER_return_value == RESOLVE_STR(vm->scheduler, cfgmap->scheduler, default_))
 //@LIFT body
@@ -21,6 +22,7 @@ __CPROVER_ensures(__CPROVER_return_value == RESOLVE_STR(vm->scheduler, cfgmap->s
 #ifdef U_AFFINITY
 //@FUNC
 str_t handle_affinity(struct cfgmap *cfgmap, struct vmap *vm, str_t default_)
+__CPROVER_requires(!vx_exc)
 __CPROVER_ensures(!vx_exc)
 __CPROVER_ensures(__CPROVER_return_value == RESOLVE_STR(vm->affinity, cfgmap->affinity, default_))
 //@LIFT body
@@ -29,6 +31,7 @@ __CPROVER_ensures(__CPROVER_return_value == RESOLVE_STR(vm->affinity, cfgmap->af
 #ifdef U_PROCESS_MASK
 //@FUNC
 str_t handle_process_mask(struct cfgmap *cfgmap, struct vmap *vm, str_t default_, bool use_process_mask)
+__CPROVER_requires(!vx_exc)
 __CPROVER_ensures(!vx_exc)
 __CPROVER_ensures(__CPROVER_return_value == RESOLVE_STR(vm->process_mask, cfgmap->process_mask, default_))
 //@LIFT body
@@ -37,6 +40,7 @@ __CPROVER_ensures(__CPROVER_return_value == RESOLVE_STR(vm->process_mask, cfgmap
 #ifdef U_PU_STEP
 //@FUNC
 size_t handle_pu_step(struct cfgmap *cfgmap, struct vmap *vm, size_t default_)
+__CPROVER_requires(!vx_exc)
 __CPROVER_ensures(!vx_exc)
 __CPROVER_ensures(__CPROVER_return_value == RESOLVE_NUM(vm->pu_step, cfgmap->pu_step, default_))
 //@LIFT body
@@ -45,6 +49,7 @@ __CPROVER_ensures(__CPROVER_return_value == RESOLVE_NUM(vm->pu_step, cfgmap->pu_
 #ifdef U_PU_OFFSET
 //@FUNC
 size_t handle_pu_offset(struct cfgmap *cfgmap, struct vmap *vm, size_t default_)
+__CPROVER_requires(!vx_exc)
 __CPROVER_ensures(!vx_exc)
 __CPROVER_ensures(__CPROVER_return_value == RESOLVE_NUM(vm->pu_offset, cfgmap->pu_offset, default_))
 //@LIFT body
